@@ -35,5 +35,7 @@ vc=/tmp/svv-$prop-$mn-$$
 rsync -a --exclude bin --exclude .git --exclude evidence --exclude replays --exclude seeded /verif/ "$vc"/
 sed -i "s#=> /repo/pkg/go#=> $wt/pkg/go#" "$vc/go.mod"
 echo "--- check ${CHECK:-$prop} $tier against the mutant:"
-(cd "$vc" && VERIF_REPO="$wt" ./run.sh "${CHECK:-$prop}" "$tier" 2>&1 | grep -E "^(VIOLATION|OK|INCONCL|KNOWN|panic|fatal|\s+/|.*\[rapid\] panic|goroutine )" | sed "s#$vc#/verif#g" | head -${SV_LINES:-4})
+pat='^(VIOLATION|OK|INCONCL|KNOWN)'
+[ -n "${SV_LINES:-}" ] && pat='^(VIOLATION|OK|INCONCL|KNOWN|panic|fatal|\s+/|.*\[rapid\] panic|goroutine )'
+(cd "$vc" && VERIF_REPO="$wt" ./run.sh "${CHECK:-$prop}" "$tier" 2>&1 | grep -E "$pat" | sed "s#$vc#/verif#g" | head -${SV_LINES:-4})
 rm -rf "$vc"
